@@ -260,7 +260,7 @@ def build_batches(ctx, mbin):
     for s in seeds:
         rng = random.Random(ctx.subseed("random-%d" % s))
         cs = []
-        plan = ([(8, 40, 60), (64, 200, 40), (1 << 20, 300, 20), (64, 1000, 6), (1 << 20, 4096, 2), (600, 4096, 1)]
+        plan = ([(8, 40, 250), (16, 100, 120), (64, 200, 120), (1 << 20, 300, 60), (64, 1000, 12), (1 << 20, 4096, 3), (600, 4096, 2)]
                 if q else
                 [(8, 40, 3000), (16, 100, 1500), (64, 200, 1000), (64, 1000, 150), (1 << 20, 300, 400),
                  (300, 2000, 40), (1 << 20, 4096, 12), (600, 4096, 10), (3000, 4096, 6)])
@@ -435,9 +435,8 @@ def split_cases(text):
 
 
 class Runner:
-    def __init__(self, ctx, cbin, mbin):
-        self.ctx, self.cbin, self.mbin = ctx, cbin, mbin
-        self.n = 0
+    def __init__(self, ctx, cbin, mbin, config="packed (A_SIZE_POINTER 8)"):
+        self.ctx, self.cbin, self.mbin, self.config = ctx, cbin, mbin, config
 
     def c_full(self, ops, timeout=20):
         """full dump of one case from the C implementation: (lines, rc, tail of output)"""
@@ -494,7 +493,8 @@ def report_failure(ctx, runner, ops, first, origin):
                what="%s after %d operations (%s): %s" % (f[1], len(small), origin, f[2]),
                replay={"case": text, "failing_op_index": f[0], "kind": f[1], "message": f[2],
                        "implementation_output": lines[-6:], "exit_status": rc, "stderr_tail": tail[-800:],
-                       "how": "printf 'H 0\\n<case lines>' | build/C02/rbt_drv full   (or: tools/vcheck.py C02 --replay <this file>)"},
+                       "configuration": runner.config, "binary": str(runner.cbin),
+                       "how": "printf 'H 0\\n<case lines>' | <binary> full   (or: tools/vcheck.py C02 --replay <this file>)"},
                found_input=True)
     return f[1]
 
@@ -533,15 +533,8 @@ def run(ctx):
     ml = ctx.extract("C02/Extract.v", ["C02/extracted/rbt.ml", "C02/extracted/rbt.mli"])
     mbin = ctx.ocaml_build("rbt_mdrv", [ml[1], ml[0], HARN / "rbt_mdrv.ml"])
     runner = Runner(ctx, cbin, mbin)
-    # second configuration of the same source: separate parent / color fields (the #else branches of rbt.c,
-    # selected by A_SIZE_POINTER <= 1; a_uptr stays 64 bit)
-    cfg1 = ctx.build / "cfg_unpacked.h"
-    txt1 = ctx.cfg_header().read_text().replace("#define A_SIZE_POINTER 8", "#define A_SIZE_POINTER 1")
-    if not cfg1.exists() or cfg1.read_text() != txt1:
-        cfg1.write_text(txt1)
-    cbin1 = ctx.cc("rbt_drv_unpacked", [HARN / "rbt_drv.c"], repo_srcs=["rbt.c"], mode="asan",
-                   defines=['A_HAVE_H="%s"' % cfg1])
-    runner1 = Runner(ctx, cbin1, mbin)
+    cbin1 = build_unpacked(ctx)
+    runner1 = Runner(ctx, cbin1, mbin, "unpacked (A_SIZE_POINTER 1)")
 
     batches = build_batches(ctx, mbin)
     ctx.log("generated %d batches, %d cases" % (len(batches), sum(len(c) for _, c in batches)))
@@ -666,11 +659,25 @@ def run(ctx):
         "ASan/UBSan as runtime observers (A_ASSUME expands to __builtin_unreachable under gcc 12: trapped by UBSan)"])
 
 
+def build_unpacked(ctx):
+    """second configuration of the same source: separate parent / color fields (the #else branches of rbt.c,
+    selected by A_SIZE_POINTER <= 1; a_uptr stays 64 bit)"""
+    cfg1 = ctx.build / "cfg_unpacked.h"
+    txt1 = ctx.cfg_header().read_text().replace("#define A_SIZE_POINTER 8", "#define A_SIZE_POINTER 1")
+    if not cfg1.exists() or cfg1.read_text() != txt1:
+        cfg1.write_text(txt1)
+    return ctx.cc("rbt_drv_unpacked", [HARN / "rbt_drv.c"], repo_srcs=["rbt.c"], mode="asan",
+                  defines=['A_HAVE_H="%s"' % cfg1])
+
+
 def replay(ctx, path):
     import json
     obj = json.loads(Path(path).read_text())
     ops = parse_case_file("H 0\n" + "\n".join(obj["replay"]["case"]))[0]
-    cbin = ctx.cc("rbt_drv", [HARN / "rbt_drv.c"], repo_srcs=["rbt.c"], mode="asan")
+    if "unpacked" in obj["replay"].get("configuration", ""):
+        cbin = build_unpacked(ctx)
+    else:
+        cbin = ctx.cc("rbt_drv", [HARN / "rbt_drv.c"], repo_srcs=["rbt.c"], mode="asan")
     runner = Runner(ctx, cbin, None)
     f = runner.fails(ops)
     lines, rc, tail = runner.c_full(ops)
